@@ -134,6 +134,6 @@ def _transform_wrenches(
     wrench21 = np.hstack((total_force_21, total_torque_21))
     wrench12 = np.hstack((-total_force_21, total_torque_12))
     mesh22origin_adjoint = adjoint_from_transform(mesh22origin)
-    wrench21_in_world = mesh22origin_adjoint.T.dot(wrench21)
-    wrench12_in_world = mesh22origin_adjoint.T.dot(wrench12)
+    wrench21_in_world = mesh22origin_adjoint.dot(wrench21)
+    wrench12_in_world = mesh22origin_adjoint.dot(wrench12)
     return wrench12_in_world, wrench21_in_world
